@@ -52,6 +52,7 @@ def check(run):
     cache.check_collection_memo(run, P, "to_linecollection", "_line_collection_cached_parameters", "line_collection", "_grid_to_matplotlib_linecollection")
     cache.check_side_tables(run, P, SLOTS)
     cache.check_slot_readers(run, P)
+    cache.check_side_tables_total(run, P, SLOTS)
     cache.check_tree_memo(run, P, "get_ball_tree", "_ball_tree", "BallTree")
     cache.check_tree_memo(run, P, "get_kd_tree", "_kd_tree", "KDTree")
     n = lazy.check_no_overwrite(run, P)
